@@ -6,13 +6,15 @@ from lib.rec import Rec
 from lib.workers import run_shards
 
 LEVEL = "exploration"
-RULE = ("G2 concrete Sids of every type that has a path template, values incl. mapped ones (project/type/state), names containing the "
-        "file-name separator '_' and names that look like other fields (x_rig_WORK, v001, char_x), node / no-node cache files; for each "
-        "configured path configuration: Sid(path=sid.path(c), config=c) == sid, repeated / keyword / positional calls agree, paths are "
-        "injective over the whole generated set, relative paths agree between configurations, pathless types and untyped Sids give None. "
-        "Shards run in pairs with the same seed, one touching 'local' first and one 'server' first (separate processes); the parent "
-        "compares their path maps. An independent renderer (R8) cross-checks the rendered path. Non-trivial = distinct (uri, config) of a "
-        "concrete Sid that has a path.")
+RULE = ('G2 concrete Sids of every type that has a path template, values incl. mapped ones (project/type/state), names containing the file-name '
+        "separator '_' and names that look like other fields (x_rig_WORK, v001, char_x), node / no-node cache files; for each configured path "
+        'configuration: Sid(path=sid.path(c), config=c) == sid, repeated / keyword / positional calls agree, paths are injective over the whole '
+        'generated set, relative paths agree between configurations, pathless types and untyped Sids give None. Shards run in pairs with the '
+        "same seed, one touching 'local' first and one 'server' first (separate processes); the parent compares their path maps. path() without "
+        "argument must be path(<default configuration>), also for a Sid read from another configuration's path and for an equal Sid built "
+        'afterwards; the last pair of shards reaches its configuration folder through a symbolic link; names include OS-reserved words, '
+        'service-entry names and a lone surrogate. An independent renderer (R8) cross-checks the rendered path. Non-trivial = distinct (uri, '
+        'config) of a concrete Sid that has a path.')
 ASSUME = ["roots are the longest common literal prefix of a configuration's templates",
           "R8 renderer applies the configured one-to-one value mappings and defaults"]
 BUDGET = {"quick": 16000, "thorough": 1200000}
